@@ -224,6 +224,24 @@ func dupToken(tx *ctx, tok string) bool {
 	return n > 1
 }
 
+// sameArgumentCarried: tx continues over a repeated greeting and a recipient accepted BEFORE the greeting
+// was named with the very same RCPT argument as rc. go-smtp files LMTP statuses by that argument, first
+// free slot first, so a status meant for rc lands on the carried-over recipient (see the carry-over
+// comment in judge): part of the suspected defect, not judged by default.
+func sameArgumentCarried(tx *ctx, rc *rcptRec) bool {
+	if !tx.AfterGreet {
+		return false
+	}
+	for prev := tx.Carried; prev != nil; prev = prev.Carried {
+		for _, rc2 := range prev.Rcpts {
+			if rc2.Accepted && rc2.Raw == rc.Raw {
+				return true
+			}
+		}
+	}
+	return false
+}
+
 func termOf(tx *ctx) string {
 	if tx == nil {
 		return "unattributed"
@@ -529,6 +547,65 @@ func judge(r *rep.Reporter, c *rep.Case, sc *scenario, rg *rig, eng *engine, mar
 			}
 		}
 	}
+	skipDup := os.Getenv("VERIF_C03_SKIP_DUP") != ""
+	// ---- recipients carried over a repeated greeting (SUSPECTED DEFECT of the pinned tree, reported; not judged
+	// by default) ----
+	// A greeting repeated in the middle of a transaction and ANSWERED 2xx does not cost the client its reply
+	// attribution. go-smtp's handleGreet replaces the session (maddy aborts the old delivery correctly) but keeps
+	// Conn.fromReceived and Conn.recipients; the new maddy Session has no MAIL, yet Session.Rcpt starts a delivery
+	// with an empty sender and Session.Data runs: RCPT/DATA without MAIL are accepted, the message goes out with a
+	// null sender to the later recipients only, the final reply is 250 (LMTP: "250 <r1> OK: queued" for the
+	// recipient of the aborted delivery as well). With VERIF_C03_JUDGE_GREET_CARRYOVER=1 this is judged:
+	//   LMTP  every recipient answered with a success line - whichever side of the greeting its RCPT was on -
+	//         must have been committed by its targets;
+	//   SMTP  a success reply to a transaction the server let continue WITHOUT a new MAIL covers the recipients
+	//         accepted before the greeting too (a server that wanted the RFC 5321 4.1.4 reset had to answer 503).
+	// Switch it on once RCPT/DATA without MAIL are refused by the Session.
+	//
+	// Two classes. "without-mail": the client went on with RCPT/DATA and NO new MAIL - maddy's Session alone can
+	// refuse that (503 5.5.1), VERIF_C03_JUDGE_GREET_CARRYOVER=1 judges it. "new-mail": the client did what
+	// RFC 5321 4.1.4 allows - greeting, new MAIL, new RCPTs; go-smtp still answers the recipients of the
+	// abandoned transaction after the data, with the default "250 OK: queued" - only go-smtp (handleGreet not
+	// resetting Conn.recipients; outside /repo) can cure that; judged with VERIF_C03_JUDGE_GREET_CARRYOVER=all only.
+	judgeCarry := os.Getenv("VERIF_C03_JUDGE_GREET_CARRYOVER") != "0" // on by default since fix 93edc3f landed in /repo
+	judgeCarryAll := os.Getenv("VERIF_C03_JUDGE_GREET_CARRYOVER") == "all"
+	for _, tx := range eng.txs {
+		if tx.Term != "ehlo" || !sc.lmtp() {
+			continue
+		}
+		for _, rc := range tx.Rcpts {
+			if rc.Accepted && !rc.Unmodelled && rc.Final != nil && rc.Final.ok() && rc.finalIn != nil && rc.finalIn != tx {
+				how := "without-mail"
+				if rc.finalIn.MailGen > 0 {
+					how = "new-mail"
+				}
+				r.Count("greet_carryover_lmtp_recipient_answered_success_"+strings.ReplaceAll(how, "-", "_"), 1)
+				if judgeCarryAll || (judgeCarry && how == "without-mail") {
+					requireDelivered(tx, rc, "lmtp-success-line-for-recipient-before-repeated-greeting-not-committed/continued="+how)
+				}
+			}
+		}
+	}
+	for _, tx := range eng.txs {
+		if (tx.Term != "data" && tx.Term != "bdat") || tx.Outcome != "success" || !tx.AfterGreet || tx.MailGen > 0 {
+			continue
+		}
+		r.Count("greet_carryover_smtp_success_without_mail", 1)
+		for prev := tx.Carried; prev != nil; prev = prev.Carried {
+			for _, rc := range prev.Rcpts {
+				if rc.Accepted && !rc.Unmodelled && rc.MailGen == prev.MailGen {
+					r.Count("greet_carryover_smtp_recipient_before_greeting", 1)
+					if judgeCarry {
+						requireDelivered(tx, rc, "success-for-transaction-continued-without-mail-recipient-before-repeated-greeting-not-committed")
+					}
+				}
+			}
+			if prev.MailGen > 0 {
+				break
+			}
+		}
+	}
+
 	for _, tx := range eng.txs {
 		if tx.Term != "data" && tx.Term != "bdat" {
 			continue
@@ -544,9 +621,19 @@ func judge(r *rep.Reporter, c *rep.Case, sc *scenario, rg *rig, eng *engine, mar
 			for _, rc := range tx.Rcpts {
 				if rc.Accepted && !rc.Unmodelled && rc.Final != nil && rc.Final.ok() {
 					if dupToken(tx, rc.Token) {
-						// the same address given twice: the scripted target may answer the two
-						// instances differently, which the per-address summary cannot tell apart
-						r.Count("c_unjudged_lmtp_duplicate_recipient", 1)
+						// The same mailbox named in two or more RCPT commands: every one of them has its own
+						// reply line. A status is reported per ADDRESS (module.StatusCollector), so a failing
+						// status of the address is the status of every RCPT command naming it, and a success
+						// line demands body ok + Commit ok on the targets like for any other recipient.
+						// (Was excluded until round 7; VERIF_C03_SKIP_DUP=1 restores the exclusion - drill only.)
+						if skipDup {
+							r.Count("c_unjudged_lmtp_duplicate_recipient", 1)
+							continue
+						}
+						r.Count("lmtp_duplicate_recipients_judged", 1)
+					}
+					if sameArgumentCarried(tx, rc) && !(judgeCarryAll || (judgeCarry && tx.MailGen == 0)) {
+						r.Count("c_unjudged_lmtp_same_argument_carried_over_greeting", 1)
 						continue
 					}
 					if ambiguousShared(tx, rc) {
@@ -562,7 +649,43 @@ func judge(r *rep.Reporter, c *rep.Case, sc *scenario, rg *rig, eng *engine, mar
 		}
 	}
 
+	// ---- evidence: repeated recipients by failure path, greeting carry-over histories ----
+	msgOfTx := map[*ctx]string{}
+	for _, msg := range msgOrder {
+		if tx, ambiguous := txOf(byMsg[msg]); tx != nil && !ambiguous {
+			msgOfTx[tx] = msg
+		}
+	}
+	countRepeat(r, sc, eng, events, msgOfTx)
+
+	// message-wide refusals at the body stage, seen by the monitors themselves: a body check that rejects
+	// (not: quarantines) and a modifier whose RewriteBody fails refuse the message for every recipient
+	// BEFORE any target sees the body
+	refusedAtBodyStage := map[string]string{}
+	for _, e := range events {
+		if e.MsgID == "" {
+			continue
+		}
+		if l := failureLabel(e); l == "check.body" || l == "mod.body" {
+			if _, ok := refusedAtBodyStage[e.MsgID]; !ok {
+				refusedAtBodyStage[e.MsgID] = l
+			}
+		}
+	}
+	for msg := range refusedAtBodyStage {
+		if len(byMsg[msg]) > 0 {
+			r.Count("judged_d_body_stage_refusals_with_open_deliveries", 1)
+		}
+	}
+	// observation (oddities/C03.txt item 2, contested, not judged): Commit called on a target whose own Body failed
+	for _, d := range ds {
+		if !d.probe && d.s.BodyKind != "" && d.s.BodyClass != mx.OK && d.s.Commit != "" {
+			r.Count("observed_commit_called_on_target_whose_body_failed_"+proto, 1)
+		}
+	}
+
 	// ---- (d) a transaction that failed before the commit step is committed nowhere ----
+	unjudgedCarry := map[string]bool{}
 	for _, msg := range msgOrder {
 		group := byMsg[msg]
 		committed := false
@@ -572,6 +695,42 @@ func judge(r *rep.Reporter, c *rep.Case, sc *scenario, rg *rig, eng *engine, mar
 			}
 		}
 		if !committed {
+			continue
+		}
+		if _, refused := refusedAtBodyStage[msg]; refused {
+			// independent of the replies and of their attribution: the failure is a monitored event of this
+			// very message, and so is the Commit
+			tx0, amb0 := txOf(group)
+			carry := tx0 != nil && tx0.AfterGreet && tx0.MailGen == 0
+			if tx0 == nil || amb0 {
+				for _, t := range eng.txs {
+					if t.AfterGreet && t.MailGen == 0 {
+						carry = true
+					}
+				}
+			}
+			if carry && os.Getenv("VERIF_C03_JUDGE_GREET_CARRYOVER") == "0" {
+				// Part of the suspected defect reported in NOTES.md (greeting carry-over, class without-mail): the
+				// Session created by the repeated greeting runs LMTPData although it has accepted no RCPT itself
+				// (go-smtp still holds the recipients of the old session), statusWrapper.allFailed() is false for
+				// zero recipients and the refused message is committed (session-5407, seed 1). Not judged until
+				// RCPT/DATA without MAIL are refused; VERIF_C03_JUDGE_GREET_CARRYOVER=1 judges it.
+				r.Count("d_unjudged_body_stage_refusal_after_greeting_carryover", 1)
+				unjudgedCarry[msg] = true
+			}
+		}
+		if l, refused := refusedAtBodyStage[msg]; refused && !unjudgedCarry[msg] {
+			tx0, _ := txOf(group)
+			noBody := "target-had-no-body"
+			for _, d := range group {
+				if d.s.Commit == mx.OK && d.s.BodyKind != "" {
+					noBody = "target-had-body"
+				}
+			}
+			c.Violation(fmt.Sprintf("d/committed-after-refusal-at-body-stage/%s/cause=%s/%s", proto, l, noBody),
+				fmt.Sprintf("message %s was refused for all recipients at the body stage (%s) before any target saw the body, yet Commit was called on a target and succeeded", msg, l),
+				witness(map[string]any{"msg_id": msg, "client_tx": tx0}))
+			r.Count("judged_d_refused_at_body_stage_committed", 1)
 			continue
 		}
 		tx, ambiguous := txOf(group)
@@ -629,7 +788,11 @@ func judge(r *rep.Reporter, c *rep.Case, sc *scenario, rg *rig, eng *engine, mar
 			}
 			// per recipient: a failure reply although all of its targets committed it
 			for _, rc := range tx.Rcpts {
-				if rc.Unmodelled || rc.Final == nil || !rc.Final.failed() || !rc.Accepted || dupToken(tx, rc.Token) {
+				if rc.Unmodelled || rc.Final == nil || !rc.Final.failed() || !rc.Accepted || (skipDup && dupToken(tx, rc.Token)) {
+					continue
+				}
+				if sameArgumentCarried(tx, rc) && !(judgeCarryAll || (judgeCarry && tx.MailGen == 0)) {
+					r.Count("c_unjudged_lmtp_same_argument_carried_over_greeting", 1)
 					continue
 				}
 				if ambiguousShared(tx, rc) {
